@@ -10,6 +10,12 @@ import (
 	"github.com/jsightapi/jsight-api-go-library/notation"
 )
 
+// UnescapeParameter returns the value of a parameter as it is written in the source: without the quotation marks
+// and escapes of the quoted spelling.
+func UnescapeParameter(b bytes.Bytes) bytes.Bytes {
+	return unescapeParameter(b)
+}
+
 func unescapeParameter(b bytes.Bytes) bytes.Bytes {
 	if !b.InQuotes() {
 		return b
